@@ -92,15 +92,28 @@ package linux
 //vc:spec func idxA(s spec) int
 //vc:ghost var wB map[spec]int
 
+// C14 (routes): a destination d that has a route before and after the change
+// (needed(d): witness keepS[d] on the host at entry, witness index wT(d) into
+// the sorted target list) has a route on the host after every emitted command.
+//vc:spec func needed(d dst) bool
+//vc:spec func wT(d dst) int
+//vc:ghost var keepS map[dst]spec
 //vc:func diffRoutes
+//vc:  hypothesis[C14] forall d dst :: { needed(d) } needed(d) ==> devRoutes[keepS[d]] && keepS[d].dst == d
+//vc:  assume after "slices.SortFunc(b"#1 forall d dst :: { needed(d) } needed(d) ==> 0 <= wT(d) && wT(d) < len(b) && b[wT(d)].dst == d
+//vc:  assign at "result = append(result, cmd)" keepS = store(keepS, r.dst, r.spec)
+//vc:  invariant[C14] 1 "for _, r := range a" @dstMapKeyedByDst forall d dst :: { d in aDstMap } (d in aDstMap) ==> aDstMap[d].dst == d
+//vc:  invariant[C14] 1 "for _, r := range a" keepS == old(keepS)
+//vc:  invariant[C14] 2 "for _, r := range b" @neededDestinationsKeepARoute forall d dst :: { needed(d) } needed(d) ==> devRoutes[keepS[d]] && keepS[d].dst == d
+//vc:  invariant[C14] 3 "for _, r := range a" @neededDestinationsKeepTargetRoute forall d dst :: { needed(d) } needed(d) ==> devRoutes[b[wT(d)].spec] && b[wT(d)].dst == d
 //vc:  hypothesis[C05] forall k int :: { a[k] } 0 <= k && k < len(a) ==> routeOK(a[k]) && devRoutes[a[k].spec]
 //vc:  hypothesis[C05] forall k int :: { b[k] } 0 <= k && k < len(b) ==> routeOK(b[k])
 //vc:  hypothesis[C05] forall s spec :: { devRoutes[s] } devRoutes[s] ==> 0 <= idxA(s) && idxA(s) < len(a) && a[idxA(s)].spec == s
 //vc:  hypothesis[C05] !sameArray(a, b)
 //vc:  assign at "delete(aMap, r.spec)" wB = store(wB, r.spec, rangeindex + 1)
 //vc:  assign at "result = append(result, cmd)" wB = store(wB, r.spec, rangeindex + 1)
-//vc:  assign at "result = append(result, cmd)" devRoutes = applyRoute(devRoutes, arg1[0])
-//vc:  assign at "result = append(result, printDel(r))" devRoutes = applyRoute(devRoutes, arg1[0])
+// every statement that appends to result is an emitted command: the host state follows its text
+//vc:  assign at "result = append(result,"#* devRoutes = applyRoute(devRoutes, arg1[0])
 //vc:  invariant[C05] 1 "for _, r := range a" @seenInMap forall k int :: { a[k] } 0 <= k && k <= rangeindex ==> (a[k].spec in aMap)
 //vc:  invariant[C05] 1 "for _, r := range a" @mapOnDevice forall s spec :: { s in aMap } (s in aMap) ==> aMap[s] && devRoutes[s]
 //vc:  invariant[C05] 1 "for _, r := range a" @deviceInMap forall s spec :: { devRoutes[s] } devRoutes[s] && idxA(s) <= rangeindex ==> (s in aMap)
@@ -115,6 +128,8 @@ package linux
 //vc:  invariant[C05] 3 "for _, r := range a" @targetStays forall k int :: { b[k] } 0 <= k && k < len(b) ==> devRoutes[b[k].spec] && !(b[k].spec in aMap)
 //vc:  invariant[C05] 3 "for _, r := range a" @unmatchedFromA forall s spec :: { s in aMap } (s in aMap) ==> aMap[s] && old(devRoutes)[s]
 //vc:  invariant[C05] 3 "for _, r := range a" @deletedSoFar forall s spec :: { s in aMap } (s in aMap) && idxA(s) <= rangeindex ==> !devRoutes[s]
+// C14: checked after the ghost updates of each emitted command (clauses at one site run in file order)
+//vc:  assert[C14] at "result = append(result,"#* @routeKeptAfterEveryCommand forall d dst :: { needed(d) } needed(d) ==> (devRoutes[keepS[d]] && keepS[d].dst == d) || (devRoutes[b[wT(d)].spec] && b[wT(d)].dst == d)
 //vc:  ensures[C05] @targetRoutesOnDevice forall k int :: { b[k] } 0 <= k && k < len(b) ==> devRoutes[b[k].spec]
 //vc:  ensures[C05] @onlyTargetRoutesOnDevice forall s spec :: { devRoutes[s] } devRoutes[s] ==> 0 <= wB[s] && wB[s] < len(b) && b[wB[s]].spec == s
 
